@@ -386,10 +386,16 @@ def execute_step(m: Machine, step, prop_of):
                 # stamp): the order inside the merged object is unspecified,
                 # so it does not join the pool - but the call is made and the
                 # arguments must come out untouched like after any other call
-                evo.trajectory.merge([x.obj for x in ents])
+                evo.trajectory.merge(_merge_arg(ents, step))
                 m.probe_hit("merge_with_shared_stamps")
                 return [], [], False
-            o = evo.trajectory.merge([x.obj for x in ents])
+            o = evo.trajectory.merge(_merge_arg(ents, step))
+            if any(o is x.obj for x in ents):
+                raise Violation(prop_of["derived"], "merge-returned-argument",
+                                op=op, container=step.get("container"),
+                                n=len(ents))
+            if step.get("container") == "dict_values":
+                m.probe_hit("merge_of_dict_view")
             order = np.argsort(allt, kind="stable")
             R = np.concatenate([x.model.R for x in ents])[order]
             p = np.concatenate([x.model.p for x in ents])[order]
@@ -583,6 +589,21 @@ def do_compute(m: Machine, step):
         L.is_se3(ps[i])
         L.sim3_inverse(ps[j])
         L.so3_from_se3(ps[i])
+        # the remaining helpers, fed with live rows / blocks of the object
+        pos = a.obj.positions_xyz
+        L.hat(pos[i])
+        L.vee(L.hat(pos[j]))
+        L.so3_exp(L.so3_log(ps[i][:3, :3]))
+        L.so3_log(ps[j][:3, :3], return_skew=True)
+        L.so3_log_angle(ps[i][:3, :3], degrees=True)
+        L.sim3_scale(ps[i])
+        L.is_so3(ps[j][:3, :3])
+        L.is_sim3(ps[i], 1.0)
+        L.is_sim3(ps[j])
+        L.se3(ps[i][:3, :3], pos[j])
+        L.sim3(ps[j][:3, :3], pos[i], 2.0)
+        L.sst_rotation_from_matrix(np.asarray(ps)[:, :3, :3])
+        L.sst_rotation_from_matrix(ps[i][:3, :3])
         m.probe_hit("compute_lie")
     elif what == "helpers":
         # conversion helpers fed with the LIVE arrays / matrices of an object
@@ -1160,6 +1181,8 @@ def gen_step(m: Machine, rng, uid):
                 return None
             k = rng.randint(1, min(3, len(st)))
             return {"op": op, "uid": uid,
+                    "container": rng.choice(["list", "list", "tuple",
+                                             "dict_values"]),
                     "objs": [x.uid for x in rng.sample(st, k)]}
         if op in ("tum_roundtrip", ) and not e.stamped:
             op = "kitti_roundtrip"
@@ -1267,6 +1290,18 @@ def gen_step(m: Machine, rng, uid):
         elif len(alive) > 1:
             st["b"] = rng.choice([x for x in alive if x is not e]).uid
     return st
+
+
+def _merge_arg(ents, step):
+    """the collection handed to trajectory.merge: evo_traj --merge passes the
+    values() view of its name -> trajectory dict"""
+    objs = [x.obj for x in ents]
+    c = step.get("container", "list")
+    if c == "tuple":
+        return tuple(objs)
+    if c == "dict_values":
+        return {f"traj_{i}": o for i, o in enumerate(objs)}.values()
+    return objs
 
 
 # --------------------------------------------------------------------------
